@@ -159,7 +159,7 @@ func init() {
 		Title:    "Satisfies = Boolean truth of the expression under the allowed list",
 		Explorer: "E1 bounded-exhaustive tree x labelling x allowed-list enumeration vs R-bool over the implementation's single-term verdicts",
 		Rule: "S1: every binary tree with <= N leaves, every AND/OR labelling, every leaf labelling over 4 atoms (2 licences, 2 references), rendered fully parenthesised, with minimal parentheses and with flat right chains / parenthesised left groups, x every non-empty subset of the atoms as allowed list; " +
-			"S3: every shape and AND/OR labelling with all-distinct leaves up to 7 (thorough 8) leaves x {all, all-but-one, single} allowed lists; S5: every tree <= 3 leaves over the 5-7 ways of writing one license (x, x+, x-only, x-or-later, x WITH e, x+ WITH e, x WITH f; 4 licenses) x lists over the same terms; S6: for every family of the version table, every tree <= 2 (thorough 3) leaves over its first, second and last version x lists of <= 2 entries over those ids with and without '+', MIT+ and up to 2 ids that sort between the family's versions; S2: every tree <= 3 leaves over 15 rich terms (+, -only, -or-later, WITH, refs, case) x every allowed list up to a length bound over 16 overlapping entries (with repetition, re-spellings); " +
+			"S3: every shape and AND/OR labelling with all-distinct leaves up to 7 (thorough 8) leaves x {all, all-but-one, single} allowed lists; S5: every tree <= 3 leaves over the 5-7 ways of writing one license (x, x+, x-only, x-or-later, x WITH e, x+ WITH e, x WITH f; 4 licenses) x lists over the same terms; S6: for every family of the version table, every tree <= 2 (thorough 3) leaves over its first, second and last version x lists of <= 2 entries over those ids with and without '+', MIT+ and up to 2 ids that sort between the family's versions; S7: every id t of the version table as a one-term expression against [t, a], [a, t], [t, a+], [a+, t] for every other table id a; S2: every tree <= 3 leaves over 15 rich terms (+, -only, -or-later, WITH, refs, case) x every allowed list up to a length bound over 16 overlapping entries (with repetition, re-spellings); " +
 			"state = (expression text, allowed list), transition = one Satisfies call; non-trivial = the tree mentions >= 2 distinct terms and the truth assignment restricted to them is neither all-false nor all-true",
 		Assumptions: []string{
 			"truth of a leaf = exists allowed entry b with Satisfies(term,[b]) (the implementation's own single-term verdict, as the property states); the matching relation itself is C02's subject",
@@ -547,6 +547,67 @@ func c01Run(c *Ctx) {
 		entries = append(entries, inBetweenIDs(f, 2)...)
 		if !sweep(atoms, entries, p6) {
 			return
+		}
+	}
+	// ---- S7: one-term expressions over every id of the version table against every two-entry list made of
+	// that id and one other table id, plain or '+', in both orders (entries of different families that some
+	// private numbering of table positions conflates meet here)
+	{
+		pos := tablePos()
+		var table []string
+		for _, fam := range T().Ranges {
+			for _, st := range fam {
+				for _, id := range st {
+					if p := pos[id]; p.Count == 1 && !strings.HasSuffix(id, "+") && Valid1(id) == 1 {
+						table = append(table, id)
+					}
+				}
+			}
+		}
+		c.Bound("S7", map[string]any{"table_ids": len(table), "lists": "[t, a], [a, t], [t, a+], [a+, t] for every other table id a"})
+		leaf := &Tree{Atom: 0, n: 1}
+		for _, t := range table {
+			ti++
+			if !c.Mine(ti) {
+				continue
+			}
+			if c.Expired() {
+				return
+			}
+			if !c.Begin("S7 " + t) {
+				continue
+			}
+			atoms := []string{t}
+			single := directSingle(atoms)
+			for _, a := range table {
+				if a == t {
+					continue
+				}
+				for _, e := range []string{a, a + "+"} {
+					if e != a && Valid1(e) != 1 {
+						continue
+					}
+					for _, l := range [][]string{{t, e}, {e, t}} {
+						msg, skip, _, want := c01Check(leaf, atoms, t, l, single)
+						c.Inc("states")
+						c.Inc("transitions")
+						c.Inc("evaluations")
+						if skip != "" {
+							c.Inc("skipped_" + strings.ReplaceAll(skip, " ", "_"))
+							continue
+						}
+						c.Inc("traces")
+						if want {
+							c.Outcome("satisfied")
+						} else {
+							c.Outcome("unsatisfied")
+						}
+						if msg != "" {
+							c01Report(c, leaf, atoms, t, l, msg)
+						}
+					}
+				}
+			}
 		}
 	}
 	c.Bound("S6", map[string]any{"families": nf, "terms": "first id of the first, second and last version step", "entries": "those ids, plain and with '+', MIT+, and up to 2 ids outside every family that sort between the family's versions", "plans(leaves,max_list_len)": p6})
